@@ -27,8 +27,12 @@
 // For every data argument of every writer site one row is emitted: the constant value if the
 // type checker knows it (kind "lit": literals, constants, constant concatenations; a local
 // variable whose every assignment is a constant gives one row per value), the parameter it is
-// if the argument is exactly a carrier parameter (kind "param"), or the expression text with
-// single-assignment locals expanded (kind "expr").
+// if the argument is exactly a carrier parameter that is never assigned in the function (kind
+// "param"), or the set of LEAVES of its data flow (kind "flow", see leaves.go: constants,
+// parameters, foreign API calls, device replies, data of the module's source packages — no local
+// names, helpers of the module are transparent).  Every row also carries its SINKS: the foreign
+// device-I/O functions (with argument index) the data finally reaches, so that the Lean side can key
+// its tables by (package, sinks) instead of by the names of functions of the module.
 package main
 
 import (
@@ -51,7 +55,12 @@ type wrow struct {
 	kind, text             string
 	owner                  string // kind == "param": the function whose parameter it is
 	pidx                   int
+	sinks                  []string // foreign device-I/O functions (#argument) the data finally reaches
+	leaves                 []string // kind == "flow"
 }
+
+// one device-I/O call (not per argument): the inventory of what touches the connection
+type iocall struct{ fn, pkg, callee, class string }
 
 type ioSpec struct {
 	class string // send | connect | exec | assemble | read
@@ -148,16 +157,17 @@ func isDataType(t types.Type) bool {
 
 // one function body of the module (declaration or literal)
 type wfunc struct {
-	name   string // SSA-style
-	pkg    string // short package
-	info   *types.Info
-	body   *ast.BlockStmt
-	sig    *types.Signature
-	outer  *wfunc // lexically enclosing function
-	root   *wfunc // outermost declaration
-	obj    *types.Func
-	lit    *ast.FuncLit
-	params map[types.Object]int
+	name    string // SSA-style
+	pkg     string // short package
+	pkgPath string
+	info    *types.Info
+	body    *ast.BlockStmt
+	sig     *types.Signature
+	outer   *wfunc // lexically enclosing function
+	root    *wfunc // outermost declaration
+	obj     *types.Func
+	lit     *ast.FuncLit
+	params  map[types.Object]int
 	// of the root only: flow-insensitive dependencies between variables, assignments
 	deps    map[types.Object]map[types.Object]bool
 	assigns map[types.Object][]ast.Expr
@@ -188,6 +198,12 @@ type wana struct {
 	carriers map[string]map[int]bool
 	named    []*types.Named // module named types (for interface resolution)
 	raw      map[string]map[string]bool
+	// sinks[f][i]: foreign device-I/O functions parameter i of carrier f finally reaches
+	sinks map[string]map[int]map[string]bool
+	// packages of the module with a device-I/O call or a carrier; the others are SOURCES of data
+	devPkgs      map[string]bool
+	fieldAssigns map[*types.Var][]fieldAssign
+	byLit        map[*ast.FuncLit]*wfunc
 }
 
 func (a *wana) txt(n ast.Node) string {
@@ -215,6 +231,9 @@ func (a *wana) addFunc(f *wfunc) {
 	if f.obj != nil {
 		a.byObj[f.obj] = f
 	}
+	if f.lit != nil {
+		a.byLit[f.lit] = f
+	}
 }
 
 // walk registers f's closures (SSA numbering: literals in source order, nested ones under their parent)
@@ -224,7 +243,7 @@ func (a *wana) walk(f *wfunc) {
 		if fl, ok := n.(*ast.FuncLit); ok {
 			anon++
 			sig, _ := f.info.TypeOf(fl).(*types.Signature)
-			c := &wfunc{name: fmt.Sprintf("%s$%d", f.name, anon), pkg: f.pkg, info: f.info, body: fl.Body, sig: sig,
+			c := &wfunc{name: fmt.Sprintf("%s$%d", f.name, anon), pkg: f.pkg, pkgPath: f.pkgPath, info: f.info, body: fl.Body, sig: sig,
 				outer: f, root: f.root, lit: fl}
 			a.addFunc(c)
 			a.walk(c)
@@ -344,6 +363,7 @@ func (a *wana) flows(root *wfunc) {
 				if id := baseIdent(l); id != nil {
 					o := obj(id)
 					root.nassign[o] += 2 // a loop variable has many values
+					root.stmts[o] = append(root.stmts[o], v)
 					add(o, v.X)
 				}
 			}
@@ -359,7 +379,38 @@ func (a *wana) flows(root *wfunc) {
 						for _, arg := range v.Args {
 							add(o, arg)
 						}
-						if len(v.Args) > 0 && sel.X == ast.Expr(id) {
+						if len(v.Args) > 0 {
+							root.stmts[o] = append(root.stmts[o], v)
+						}
+					}
+				}
+			}
+			// F(&x, args) / F(p, args) with a local pointer p: the other arguments may end up in x
+			// (json.Unmarshal(data, &x); k := new(T); xml.Unmarshal(data, k))
+			foreign := false
+			if fo := calleeFunc(info, v); fo != nil && fo.Pkg() != nil && !strings.HasPrefix(fo.Pkg().Path(), mod) {
+				foreign = true
+			}
+			for _, arg := range v.Args {
+				if !foreign {
+					break
+				}
+				target := ast.Expr(nil)
+				if u, ok := ast.Unparen(arg).(*ast.UnaryExpr); ok && u.Op == token.AND {
+					target = u.X
+				} else if id, ok := ast.Unparen(arg).(*ast.Ident); ok {
+					if _, isPtr := info.TypeOf(id).(*types.Pointer); isPtr && len(v.Args) > 1 {
+						target = id
+					}
+				}
+				if target != nil {
+					if id := baseIdent(target); id != nil {
+						if o, ok := obj(id).(*types.Var); ok && !o.IsField() {
+							for _, other := range v.Args {
+								if other != arg {
+									add(o, other)
+								}
+							}
 							root.stmts[o] = append(root.stmts[o], v)
 						}
 					}
@@ -424,113 +475,6 @@ func isParamOf(f *wfunc, o types.Object) bool {
 	return false
 }
 
-// expand: expression text; a local that is assigned exactly once and never modified is replaced by
-// what it was assigned; every other local keeps its name and `where` lists every statement that
-// defines or may modify it (so that the text pins what can be in the value).
-func (a *wana) expand(f *wfunc, e ast.Expr, depth int, where map[types.Object]bool) string {
-	if id, ok := e.(*ast.Ident); ok {
-		if o, ok := f.info.Uses[id].(*types.Var); ok && !o.IsField() && !isParamOf(f, o) {
-			rhs := f.root.assigns[o]
-			if depth < 3 && f.root.nassign[o] == 1 && len(rhs) == 1 && len(f.root.stmts[o]) == 1 {
-				if _, isLit := rhs[0].(*ast.FuncLit); !isLit {
-					return a.expand(f, rhs[0], depth+1, where)
-				}
-			}
-			if len(f.root.stmts[o]) > 0 {
-				where[o] = true
-			}
-		}
-		return id.Name
-	}
-	switch x := e.(type) {
-	case *ast.BinaryExpr:
-		if x.Op == token.ADD {
-			return a.expand(f, x.X, depth+1, where) + " + " + a.expand(f, x.Y, depth+1, where)
-		}
-	case *ast.ParenExpr:
-		return "(" + a.expand(f, x.X, depth, where) + ")"
-	}
-	// any other expression: its text; the locals in it are described
-	vs := map[types.Object]bool{}
-	varsOf(f.info, e, vs)
-	for o := range vs {
-		if !isParamOf(f, o) && len(f.root.stmts[o]) > 0 {
-			where[o] = true
-		}
-	}
-	return a.txt(e)
-}
-
-func rhsOf(n ast.Node) []ast.Node {
-	var l []ast.Node
-	switch v := n.(type) {
-	case *ast.AssignStmt:
-		for _, r := range v.Rhs {
-			l = append(l, r)
-		}
-	case *ast.ValueSpec:
-		for _, r := range v.Values {
-			l = append(l, r)
-		}
-	case *ast.CallExpr:
-		for _, r := range v.Args {
-			l = append(l, r)
-		}
-	}
-	return l
-}
-
-// describe: expand + the statements about the locals involved (two levels, at most 14 statements)
-func (a *wana) describe(f *wfunc, e ast.Expr) string {
-	where := map[types.Object]bool{}
-	text := a.expand(f, e, 0, where)
-	var nodes []ast.Node
-	seenN := map[ast.Node]bool{}
-	done := map[types.Object]bool{}
-	for level := 0; level < 2; level++ {
-		next := map[types.Object]bool{}
-		for o := range where {
-			if done[o] {
-				continue
-			}
-			done[o] = true
-			for _, st := range f.root.stmts[o] {
-				if !seenN[st] {
-					seenN[st] = true
-					nodes = append(nodes, st)
-					vs := map[types.Object]bool{}
-					for _, r := range rhsOf(st) {
-						varsOf(f.info, r, vs)
-					}
-					for v := range vs {
-						if !isParamOf(f, v) && len(f.root.stmts[v]) > 0 && !done[v] && v.Type().String() != "error" {
-							next[v] = true
-						}
-					}
-				}
-			}
-		}
-		where = next
-	}
-	if len(nodes) == 0 {
-		return text
-	}
-	sort.Slice(nodes, func(i, j int) bool { return nodes[i].Pos() < nodes[j].Pos() })
-	var parts []string
-	for i, n := range nodes {
-		if i == 14 {
-			parts = append(parts, "…")
-			break
-		}
-		t := a.txt(n)
-		if len(t) > 160 {
-			t = t[:160] + "…"
-		}
-		parts = append(parts, t)
-	}
-	return text + " where " + strings.Join(parts, "; ")
-}
-
 func constText(tv types.TypeAndValue) (string, bool) {
 	if tv.IsNil() {
 		return "nil", true
@@ -545,55 +489,40 @@ func constText(tv types.TypeAndValue) (string, bool) {
 }
 
 // rowsFor: one row per data argument
-func (a *wana) rowsFor(f *wfunc, callee, class string, idx int, e ast.Expr) []wrow {
-	base := wrow{fn: f.name, pkg: f.pkg, callee: callee, class: class, arg: idx}
+func (a *wana) rowsFor(f *wfunc, callee, class string, idx int, e ast.Expr, sinks []string) []wrow {
+	base := wrow{fn: f.name, pkg: f.pkg, callee: callee, class: class, arg: idx, sinks: sinks}
 	if e == nil {
 		r := base
-		r.kind, r.text = "expr", "<missing>"
+		r.kind, r.text, r.leaves = "flow", "<missing>", []string{"opaque missing"}
 		return []wrow{r}
 	}
-	if s, ok := constText(f.info.Types[e]); ok {
-		r := base
-		r.kind, r.text = "lit", s
-		return []wrow{r}
+	// a finite set of complete constants (through never-modified locals, concatenation of
+	// constants, helpers of the module that return constants)
+	if vals, ok := a.constValues(&lenv{fn: f}, e, -1, 0); ok && len(vals) > 0 {
+		var rows []wrow
+		for _, s := range vals {
+			r := base
+			r.kind, r.text = "lit", s
+			rows = append(rows, r)
+		}
+		return rows
 	}
-	if id, ok := e.(*ast.Ident); ok {
+	if id, ok := ast.Unparen(e).(*ast.Ident); ok {
 		if o, ok := f.info.Uses[id].(*types.Var); ok {
 			for g := f; g != nil; g = g.outer {
-				if i, ok := g.params[o]; ok && isDataType(o.Type()) {
+				// exactly a parameter that the function never assigns: checked at every caller
+				if i, ok := g.params[o]; ok && isDataType(o.Type()) && f.root.nassign[o] == 0 && len(f.root.stmts[o]) == 0 {
 					r := base
-					r.kind, r.text, r.owner, r.pidx = "param", id.Name, g.name, i
+					r.kind, r.text, r.owner, r.pidx = "param", "", g.name, i
 					return []wrow{r}
-				}
-			}
-			// a local all of whose assignments are constants
-			rhs := f.root.assigns[o]
-			if len(rhs) > 0 && len(rhs) == f.root.nassign[o] {
-				var rows []wrow
-				seen := map[string]bool{}
-				for _, x := range rhs {
-					s, ok := constText(f.info.Types[x])
-					if !ok {
-						rows = nil
-						break
-					}
-					if !seen[s] {
-						seen[s] = true
-						r := base
-						r.kind, r.text = "lit", s
-						rows = append(rows, r)
-					}
-				}
-				if rows != nil {
-					return rows
 				}
 			}
 		}
 	}
 	r := base
-	r.kind, r.text = "expr", a.describe(f, e)
-	if len(r.text) > 900 {
-		r.text = r.text[:900] + "…"
+	r.kind, r.text, r.leaves = "flow", a.txt(e), a.leavesOf(f, e)
+	if len(r.text) > 300 {
+		r.text = r.text[:300] + "…"
 	}
 	return []wrow{r}
 }
@@ -696,27 +625,9 @@ func (a *wana) collectCalls(f *wfunc) {
 						c.mods = a.implementations(fobj) // interface method of the module
 					}
 				} else if fobj.Pkg() != nil {
-					full := fobj.FullName()
-					spec, known := ioTable[full]
-					touches := known || ioPkgs[fobj.Pkg().Path()]
-					if c.recv != nil && isConnType(info.TypeOf(c.recv)) {
-						touches = true
-					}
-					for _, arg := range v.Args {
-						if isConnType(info.TypeOf(arg)) {
-							touches = true
-						}
-					}
-					if p := fobj.Pkg().Path(); (p == "net" || p == "crypto/tls") && (strings.HasPrefix(fobj.Name(), "Dial") || strings.HasPrefix(fobj.Name(), "Listen")) {
-						touches = true
-					}
-					if touches {
-						c.ext = full
-						if known {
-							c.spec = spec
-						} else {
-							c.spec = ioSpec{class: "unclassified", all: true}
-						}
+					if spec, touches := classifyExt(info, fobj, v, c.recv); touches {
+						c.ext = fobj.FullName()
+						c.spec = spec
 					}
 				}
 			}
@@ -745,6 +656,34 @@ func (a *wana) collectCalls(f *wfunc) {
 		}
 		return true
 	})
+}
+
+// classifyExt: is the call of the foreign function device I/O, and of which class
+func classifyExt(info *types.Info, fobj *types.Func, call *ast.CallExpr, recv ast.Expr) (ioSpec, bool) {
+	if fobj == nil || fobj.Pkg() == nil {
+		return ioSpec{}, false
+	}
+	full := fobj.FullName()
+	spec, known := ioTable[full]
+	touches := known || ioPkgs[fobj.Pkg().Path()]
+	if recv != nil && isConnType(info.TypeOf(recv)) {
+		touches = true
+	}
+	for _, arg := range call.Args {
+		if isConnType(info.TypeOf(arg)) {
+			touches = true
+		}
+	}
+	if p := fobj.Pkg().Path(); (p == "net" || p == "crypto/tls") && (strings.HasPrefix(fobj.Name(), "Dial") || strings.HasPrefix(fobj.Name(), "Listen")) {
+		touches = true
+	}
+	if !touches {
+		return ioSpec{}, false
+	}
+	if known {
+		return spec, true
+	}
+	return ioSpec{class: "unclassified", all: true}, true
 }
 
 func (c *wcall) argExpr(i int) ast.Expr {
@@ -813,13 +752,15 @@ func loadPackages(goDir string) chan loaded {
 	return ch
 }
 
-func analyseWriters(ld loaded, raw map[string]map[string]bool) ([]wrow, map[string]map[int]bool) {
+func analyseWriters(ld loaded, raw map[string]map[string]bool) ([]wrow, map[string]map[int]bool, []iocall) {
 	pkgs, err := ld.pkgs, ld.err
 	if err != nil {
 		problem("go/packages: %v", err)
-		return nil, nil
+		return nil, nil, nil
 	}
-	a := &wana{funcs: map[string]*wfunc{}, byObj: map[*types.Func]*wfunc{}, carriers: map[string]map[int]bool{}, raw: raw}
+	a := &wana{funcs: map[string]*wfunc{}, byObj: map[*types.Func]*wfunc{}, carriers: map[string]map[int]bool{}, raw: raw,
+		sinks: map[string]map[int]map[string]bool{}, devPkgs: map[string]bool{}, fieldAssigns: map[*types.Var][]fieldAssign{},
+		byLit: map[*ast.FuncLit]*wfunc{}}
 	var roots []*wfunc
 	packages.Visit(pkgs, nil, func(p *packages.Package) {
 		if !strings.HasPrefix(p.PkgPath, mod) {
@@ -846,7 +787,7 @@ func analyseWriters(ld loaded, raw map[string]map[string]bool) ([]wrow, map[stri
 				if obj == nil {
 					continue
 				}
-				f := &wfunc{name: obj.FullName(), pkg: shortPkg(p.PkgPath), info: p.TypesInfo, body: fd.Body,
+				f := &wfunc{name: obj.FullName(), pkg: shortPkg(p.PkgPath), pkgPath: p.PkgPath, info: p.TypesInfo, body: fd.Body,
 					sig: obj.Type().(*types.Signature), obj: obj}
 				f.root = f
 				a.addFunc(f)
@@ -878,7 +819,16 @@ func analyseWriters(ld loaded, raw map[string]map[string]bool) ([]wrow, map[stri
 			static[c.in.name][m] = true
 		}
 	}
-	// carriers: fixpoint
+	for _, n := range names {
+		a.collectFieldAssigns(a.funcs[n])
+	}
+	// carriers and their sinks: fixpoint
+	sinkSet := func(c *wcall, callee string, i int) map[string]bool {
+		if c.ext != "" {
+			return map[string]bool{sinkName(c.ext, i): true}
+		}
+		return a.sinks[callee][i]
+	}
 	for changed := true; changed; {
 		changed = false
 		for _, c := range a.calls {
@@ -900,14 +850,23 @@ func analyseWriters(ld loaded, raw map[string]map[string]bool) ([]wrow, map[stri
 					if e == nil {
 						continue
 					}
+					ss := sinkSet(c, callee, i)
 					for g, idxs := range a.paramsOf(c.in, e) {
 						for j := range idxs {
 							if a.carriers[g.name] == nil {
 								a.carriers[g.name] = map[int]bool{}
+								a.sinks[g.name] = map[int]map[string]bool{}
 							}
 							if !a.carriers[g.name][j] {
 								a.carriers[g.name][j] = true
+								a.sinks[g.name][j] = map[string]bool{}
 								changed = true
+							}
+							for k := range ss {
+								if !a.sinks[g.name][j][k] {
+									a.sinks[g.name][j][k] = true
+									changed = true
+								}
 							}
 						}
 					}
@@ -915,6 +874,26 @@ func analyseWriters(ld loaded, raw map[string]map[string]bool) ([]wrow, map[stri
 			}
 		}
 	}
+	// device packages: a device-I/O call or a carrier in them; every other package of the module is a source
+	for _, c := range a.calls {
+		if c.ext != "" {
+			a.devPkgs[c.in.pkgPath] = true
+		}
+	}
+	for n := range a.carriers {
+		if f := a.funcs[n]; f != nil {
+			a.devPkgs[f.pkgPath] = true
+		}
+	}
+	sorted := func(m map[string]bool) []string {
+		var l []string
+		for k := range m {
+			l = append(l, k)
+		}
+		sort.Strings(l)
+		return l
+	}
+	var ios []iocall
 	// rows
 	var rows []wrow
 	for _, c := range a.calls {
@@ -923,19 +902,23 @@ func analyseWriters(ld loaded, raw map[string]map[string]bool) ([]wrow, map[stri
 			if c.recv != nil {
 				t = "method value of " + a.txt(c.recv)
 			}
-			rows = append(rows, wrow{fn: c.in.name, pkg: c.in.pkg, callee: c.ext, class: c.spec.class, kind: "expr", text: t})
+			rows = append(rows, wrow{fn: c.in.name, pkg: c.in.pkg, callee: c.ext, class: c.spec.class, kind: "flow", text: t,
+				sinks: []string{sinkName(c.ext, 0)}, leaves: []string{"method-value"}})
+			ios = append(ios, iocall{c.in.name, c.in.pkg, c.ext, c.spec.class})
 			continue
 		}
 		if c.ext != "" {
 			if c.spec.class == "read" {
 				continue
 			}
+			ios = append(ios, iocall{c.in.name, c.in.pkg, c.ext, c.spec.class})
 			idxs := a.dataArgs(c, c.ext)
 			if len(idxs) == 0 {
-				rows = append(rows, wrow{fn: c.in.name, pkg: c.in.pkg, callee: c.ext, class: c.spec.class, kind: "expr", text: a.txt(c.call)})
+				rows = append(rows, wrow{fn: c.in.name, pkg: c.in.pkg, callee: c.ext, class: c.spec.class, kind: "flow", text: a.txt(c.call),
+					sinks: []string{sinkName(c.ext, 0)}, leaves: []string{"opaque no-data-argument"}})
 			}
 			for _, i := range idxs {
-				rows = append(rows, a.rowsFor(c.in, c.ext, c.spec.class, i, c.argExpr(i))...)
+				rows = append(rows, a.rowsFor(c.in, c.ext, c.spec.class, i, c.argExpr(i), []string{sinkName(c.ext, i)})...)
 			}
 			continue
 		}
@@ -947,7 +930,7 @@ func analyseWriters(ld loaded, raw map[string]map[string]bool) ([]wrow, map[stri
 		}
 		for _, callee := range callees {
 			for _, i := range a.dataArgs(c, callee) {
-				rows = append(rows, a.rowsFor(c.in, callee, class, i, c.argExpr(i))...)
+				rows = append(rows, a.rowsFor(c.in, callee, class, i, c.argExpr(i), sorted(a.sinks[callee][i]))...)
 			}
 		}
 	}
@@ -957,5 +940,68 @@ func analyseWriters(ld loaded, raw map[string]map[string]bool) ([]wrow, map[stri
 		}
 		return false
 	})
-	return rows, a.carriers
+	return rows, a.carriers, ios
+}
+
+func sinkName(ext string, i int) string {
+	if i < 0 {
+		return ext + "#recv"
+	}
+	return fmt.Sprintf("%s#%d", ext, i)
+}
+
+// collectFieldAssigns: every assignment to a field of a struct (x.f = e, x.f += e, T{f: e}, T{e0, e1})
+func (a *wana) collectFieldAssigns(f *wfunc) {
+	info := f.info
+	ast.Inspect(f.body, func(n ast.Node) bool {
+		switch v := n.(type) {
+		case *ast.FuncLit:
+			return false
+		case *ast.AssignStmt:
+			for i, l := range v.Lhs {
+				se, ok := ast.Unparen(l).(*ast.SelectorExpr)
+				if !ok {
+					continue
+				}
+				sel := info.Selections[se]
+				if sel == nil || sel.Kind() != types.FieldVal {
+					continue
+				}
+				fv, _ := sel.Obj().(*types.Var)
+				if fv == nil {
+					continue
+				}
+				if len(v.Lhs) == len(v.Rhs) {
+					a.fieldAssigns[fv] = append(a.fieldAssigns[fv], fieldAssign{f, v.Rhs[i], -1})
+				} else if len(v.Rhs) == 1 {
+					a.fieldAssigns[fv] = append(a.fieldAssigns[fv], fieldAssign{f, v.Rhs[0], i})
+				}
+			}
+		case *ast.CompositeLit:
+			tv, ok := info.Types[v]
+			if !ok {
+				return true
+			}
+			t := tv.Type
+			if p, ok := t.Underlying().(*types.Pointer); ok {
+				t = p.Elem()
+			}
+			st, ok := t.Underlying().(*types.Struct)
+			if !ok {
+				return true
+			}
+			for i, el := range v.Elts {
+				if kv, ok := el.(*ast.KeyValueExpr); ok {
+					if id, ok := kv.Key.(*ast.Ident); ok {
+						if fv, ok := info.Uses[id].(*types.Var); ok && fv.IsField() {
+							a.fieldAssigns[fv] = append(a.fieldAssigns[fv], fieldAssign{f, kv.Value, -1})
+						}
+					}
+				} else if i < st.NumFields() {
+					a.fieldAssigns[st.Field(i)] = append(a.fieldAssigns[st.Field(i)], fieldAssign{f, el, -1})
+				}
+			}
+		}
+		return true
+	})
 }
